@@ -8,13 +8,16 @@ from vlib import ksim
 
 PROPERTY = "C03"
 RULE = ("initial workers 1-4 x timeout {0,1,2,5,30} x history of up to 12 external events {worker exit with status 0/1/3/4/255 or "
-        "signal 9/15/11, TTIN/TTOU bursts of 1-7 signals, HUP with a new worker count, child dying inside fork(), a non-worker child and a worker dying under one SIGCHLD, tick} x a schedule "
+        "signal 9/15/11, TTIN/TTOU bursts of 1-7 signals, HUP with a new worker count, child dying inside fork(), a non-worker child and a worker dying under one SIGCHLD, "
+        "every live worker failing to boot one after the other (also during halt()), real-time signals 34-64, tick} x a schedule "
         "vector that decides at every fake system call (fork, kill, waitpid, sleep, select) whether a dying child dies there, so that "
         "SIGCHLD's handler runs inside spawn_worker, kill_workers, manage_workers, reload; the real Arbiter.run() executes against the "
         "simulated kernel and is compared with a reference pool model at quiescence (timeout+8 idle seconds after the last event): "
         "live == tracked, |live| == target (TTIN/TTOU clamp at 1, 5-deep signal queue, HUP resets), no zombie, every surplus TERM to the "
         "then-oldest tracked workers, exit status 3/4 of a child => run() leaves with that status. non-trivial = >=1 death and >=1 of "
-        "TTIN/TTOU/HUP, or a death inside fork(); distinct by case hash")
+        "TTIN/TTOU/HUP, or a death inside fork(). Engine R: real kill/TTIN/TTOU/HUP sequences compared with /proc, and real masters whose "
+        "workers cannot boot (application module / attribute missing, import raising, post_fork or post_worker_init raising; from the start "
+        "or only after a HUP) x worker class: the master exits with status 3/4 within 15 s and leaves no process. distinct by case hash")
 ASSUMPTIONS = [
     "signal handlers run at fake system-call boundaries, not between arbitrary bytecodes",
     "a healthy worker exits some boundaries after TERM; hung workers are C11's domain",
@@ -33,6 +36,7 @@ event = st.one_of(
     st.tuples(st.just("fastdeath"), st.sampled_from([0, 1 << 8, 9, 11, 255 << 8, 35, 11 | 0x80])),
     st.tuples(st.just("coalesced"), st.integers(0, 5), st.sampled_from([0, 1 << 8, 9, 35])),
     st.tuples(st.just("tick")),
+    st.tuples(st.just("bootfail"), st.sampled_from([3 << 8, 4 << 8])),
 )
 
 
@@ -56,6 +60,62 @@ def extra_cases(tier, seed, shard, nshards):
              "gaps": [round(rng.choice([0.0, 0.05, 0.3]), 2) for _ in ops]}
         if i % nshards == shard:
             yield c
+    # a worker that cannot boot: every site at which booting can fail x worker class (x "only after a reload")
+    cells = [(site, late) for site in BOOT_FAILURES for late in (False, True)]
+    for j, (site, late) in enumerate(cells):
+        if tier == "quick" and late and j % 3 != seed % 3:
+            continue
+        if (j + n) % nshards == shard:
+            yield {"engine": "Rboot", "kind": ["sync", "gthread", "gevent", "eventlet"][(j + seed) % 4], "site": site, "after_hup": late,
+                   "workers": 1 + j % 3}
+
+
+BOOT_FAILURES = {
+    # site: (conf lines, environment, application target, expected exit status of the master)
+    "app-module-missing": ([], {}, "verif_no_such_module:app", 4),
+    "app-attribute-missing": ([], {}, "rapp:no_such_callable", 4),
+    "app-import-raises": ([], {"VERIF_RAPP_FAIL_IMPORT": "1"}, "rapp:app", 3),
+    "post_fork-raises": (["def post_fork(server, worker):", "    raise RuntimeError('post_fork fails')"], {}, "rapp:app", 3),
+    "post_worker_init-raises": (["def post_worker_init(worker):", "    raise RuntimeError('post_worker_init fails')"], {}, "rapp:app", 3),
+}
+
+
+def run_boot_failure(case):
+    """engine R: the master must stop with the distinct status instead of forking replacements for ever"""
+    import signal as sg
+    import time
+    from vlib import renv
+    conf, env, target, want = BOOT_FAILURES[case["site"]]
+    late = case["after_hup"] and not env and target == "rapp:app"      # only a config-file failure can be introduced by a reload
+    base = ["workers = %d" % case["workers"]]
+    srv = renv.Server(kind=case["kind"], workers=None, bind="unix", graceful=2, timeout=30, threads=2 if case["kind"] == "gthread" else None,
+                      conf_lines=base + ([] if late else conf), env=env, app=target)
+    vio = []
+    classes = ["engine:Rboot", "kind:" + case["kind"], "site:" + case["site"], "after-hup:%s" % late]
+    try:
+        if late:
+            if not srv.wait_ready():
+                return Outcome([], False, classes + ["inconclusive:not-ready"])
+            srv.write_conf(base + conf)
+            srv.signal(sg.SIGHUP)
+        status = srv.wait_exit(15)
+        boots = srv.logtext().count("Booting worker with pid")
+        if status is None:
+            vio.append(Violation("boot-failure-halts", "C03/real:unbootable-worker-respawned-for-ever:" + case["site"],
+                                 observed={"case": case, "boots_so_far": boots, "log_tail": srv.logtext()[-1000:]},
+                                 expected="master exits with status %d" % want))
+        elif status not in (3, 4):
+            vio.append(Violation("boot-failure-halts", "C03/real:boot-failure-exit-status-%s:%s" % (status, case["site"]),
+                                 observed={"case": case, "status": status, "log_tail": srv.logtext()[-1000:]}, expected=want))
+        else:
+            time.sleep(0.3)
+            left = srv.session_procs()
+            if left:
+                vio.append(Violation("boot-failure-halts", "C03/real:processes-left-after-boot-failure-halt", observed={"left": left, "case": case},
+                                     expected="none"))
+        return Outcome(vio, True, classes, key="Rboot|%s|%s|%s" % (case["site"], late, case["kind"]), sample={"case": case, "status": status, "boots": boots})
+    finally:
+        srv.cleanup()
 
 
 def run_real(case):
@@ -132,6 +192,8 @@ def model_target(case, applied):
 def run_case(case):
     if case.get("engine") == "R":
         return run_real(case)
+    if case.get("engine") == "Rboot":
+        return run_boot_failure(case)
     k = ksim.Kernel(case["sched"], case["events"], quiesce_steps=case["timeout"] + 8)
     out = ksim.run_arbiter(k, {"workers": case["workers"], "timeout": case["timeout"], "graceful_timeout": 3})
     arb = out["arbiter"]
